@@ -34,6 +34,9 @@ type Scenario struct {
 	Bound       int
 	MaxPoints   int
 	UnlockPoint bool
+	// Guide (optional): thread ids taking the first steps, to reach a prepared state; the
+	// exploration deviates only after these steps.
+	Guide []vrt.GuideStep
 	// Info is copied into replay artefacts.
 	Info map[string]any
 }
@@ -109,7 +112,18 @@ func (e *Explorer) Explore(sc *Scenario) Stats {
 		return e.Stats
 	}
 	e.checkRace(sc, nil, true) // races in the two warm-up runs are attributed to the default schedule
-	e.explore(sc, nil, nil, 0, 0)
+	var fixed []int
+	if len(sc.Guide) > 0 {
+		// turn the guide into a fixed choice prefix
+		inst := sc.New()
+		g := vrt.RunGuided(inst.Names, inst.Bodies, nil, sc.Guide, sc.MaxPoints, sc.UnlockPoint)
+		if g.Diverged != "" || g.GuidedPoints == 0 {
+			e.Rep.DistrustF("scenario=%s: the guide cannot be followed (%s)", sc.Name, g.Diverged)
+			return e.Stats
+		}
+		fixed = choices(g)[:g.GuidedPoints]
+	}
+	e.explore(sc, fixed, nil, 0, 0)
 	st := e.Stats
 	e.Rep.Evaluations += st.Executions
 	e.Rep.States += st.Points // scheduling points visited = scheduler states on the explored paths
@@ -141,7 +155,7 @@ func (e *Explorer) explore(sc *Scenario, prefix []int, parentTrace []int, level 
 		return
 	}
 	// a replayed prefix must reproduce the parent's steps exactly
-	if n := 3 * (len(prefix) - 1); n > 0 && (len(x.Trace) < n || len(parentTrace) < n || !sameInts(x.Trace[:n], parentTrace[:n])) {
+	if n := 3 * (len(prefix) - 1); n > 0 && parentTrace != nil && (len(x.Trace) < n || len(parentTrace) < n || !sameInts(x.Trace[:n], parentTrace[:n])) {
 		e.Rep.DistrustF("NONDETERMINISM scenario=%s prefix=%v: replay diverged from the parent execution", sc.Name, prefix)
 		return
 	}
